@@ -421,8 +421,11 @@ class Check:
         return True
 
     def finish(self):
-        os.makedirs(os.path.join(ROOT, "evidence"), exist_ok=True)
-        os.makedirs(os.path.join(ROOT, "replay"), exist_ok=True)
+        # VERIF_OUT_DIR: where evidence/ and replay/ go (the mutant sweep writes elsewhere so that the committed
+        # evidence always describes /repo itself)
+        OUT = os.environ.get("VERIF_OUT_DIR", ROOT)
+        os.makedirs(os.path.join(OUT, "evidence"), exist_ok=True)
+        os.makedirs(os.path.join(OUT, "replay"), exist_ok=True)
         for sig, det in self.known_hit.items():
             what = next((k.get("what", "") for k in self.findings if k.get("signature") == sig), "")
             print("KNOWN-FINDING: property=%s %s %s" % (self.pid, sig, what))
@@ -434,7 +437,7 @@ class Check:
             seen.add(sig)
             n += 1
             h = hashlib.sha1((sig + json.dumps(det, sort_keys=True, default=str)).encode()).hexdigest()[:10]
-            path = os.path.join(ROOT, "replay", "%s-%s.json" % (self.pid, h))
+            path = os.path.join(OUT, "replay", "%s-%s.json" % (self.pid, h))
             json.dump({"property": self.pid, "signature": sig, "detail": det, "replay": rep,
                        "seed": self.seed, "tier": self.tier}, open(path, "w"), indent=1, default=str)
             print("VIOLATION property=%s replay=%s" % (self.pid, path))
@@ -447,7 +450,7 @@ class Check:
               "known_findings_observed": sorted(self.known_hit)}
         if not self.cov["samples"]:
             self.cov["samples"].append("none")
-        json.dump(ev, open(os.path.join(ROOT, "evidence", self.pid + ".json"), "w"), indent=1, default=str)
+        json.dump(ev, open(os.path.join(OUT, "evidence", self.pid + ".json"), "w"), indent=1, default=str)
         return 1 if seen else 0
 
 
